@@ -78,7 +78,8 @@ type Unit struct {
 func generate(cfg Config, p *load.Program, sel func(key string, c *gcl.Contract) bool, selLemma func(l *gcl.Lemma) bool) []*Unit {
 	var keys []string
 	for k, c := range p.Contracts {
-		if c.Kind == "func" && !c.Trusted && sel(k, c) {
+		// assumed contracts that carry exit / call clauses for a property are executed too (only those clauses are checked)
+		if c.Kind == "func" && (!c.Trusted || c.Assumed && len(c.Props) > 0 && (len(c.Exits) > 0 || len(c.CallAsserts) > 0)) && sel(k, c) {
 			keys = append(keys, k)
 		}
 	}
